@@ -648,10 +648,8 @@ example (κ : ℝ) : IsPSDKernel fun a b : EuclideanSpace ℝ (Fin 2) × ℝ =>
     Real.exp (-(Real.sqrt (‖a.1 - b.1‖ ^ 2 + (κ * (a.2 - b.2)) ^ 2) ^ 2)) :=
   psd_metric_time (gaussian_psd (V := WithLp 2 (EuclideanSpace ℝ (Fin 2) × ℝ))) κ
 
-example : |Real.exp (-((2:ℝ) ^ 2))| ≤ Real.exp (-((0:ℝ) ^ 2)) := by
-  have h := cor_le_one (gaussian_psd (V := ℝ)) (2 : ℝ)
-  simp at h ⊢
-  linarith [Real.exp_pos (-(2:ℝ) ^ 2), Real.exp_le_one_iff.2 (by norm_num : -(2:ℝ) ^ 2 ≤ 0)]
+example (r : EuclideanSpace ℝ (Fin 3)) : -1 ≤ Real.exp (-(‖r‖ ^ 2)) ∧ Real.exp (-(‖r‖ ^ 2)) ≤ 1 :=
+  cor_mem_Icc (gaussian_psd (V := EuclideanSpace ℝ (Fin 3))) (by simp) r
 
 end endtoend
 
